@@ -17,7 +17,7 @@ import (
 
 func init() {
 	Registry["C12"] = Set{
-		Explanation: "Decides structural clauses of remote delivery integrity on the raw frame protocol: R1 for every proto* message constant the writer's field map (offset, width, role pid/alias/ref word) agrees with the reader arm's field map, the header size allocated by the writer equals the offset at which the reader starts decoding the payload, and every identifier word the writer stores is read back; R5 an identifier the reader rebuilds with the peer's name/creation is one the writer owns (not guarded against the peer's creation) and vice versa, so 'from' is the true sender and 'to' the addressee; R2 the only write to a pooled link is in send, after the peer's max-message-size test which comes after compression; every frame builder ends in send; R3 no read of a receive buffer after it was released, no double release (ownership typestate over SSA); R4 each important-delivery acknowledgement carries the reference read from that frame, the error of that Route* call, and is addressed to the frame's sender; R6 the frame cutter uses one length for the frame and the tail. Added while probing: R1h every frame writer writes the complete header into the buffer it stamps (magic, version, its own length at [2:6], selector at 6, type at 7); R1e all integer accesses in net/proto and net/handshake are big-endian; R7 the compression envelope (type id, length prefix, offsets) agrees between send, the receive worker and each Compress/Decompress pair; R8 the stream reader appends at the buffer's logical end (offset sampled before the growth helper) and the new length is offset + n; R9 no frame is stranded in a receive queue (producer pushes before trying the lock; the worker re-checks after Unlock). R10 lock pairing — in every function that touches the link writer's (flusher) lock a forward data flow over (held read/write, unlock deferred) shows: no return while the lock is held without a deferred unlock, no unlock (explicit or deferred) of a lock that is not held or of the other kind, no second lock (a leaked lock blocks every later send on that link for ever, an unlock of an unlocked mutex is a fatal error that takes the node down). R3x pooled objects across calls — when a function may release a pooled buffer it received as a parameter (directly, through a callee resolved statically or by the VTA call graph, or deferred), no caller releases or re-dispatches the same object on a path compatible with the callee's releasing path; paths are correlated through the nil-ness of the callee's error result (a double release hands one object to two later users: frames of unrelated connections overwrite each other, a request is presented twice or answered with another request's reference). R3i = C02.D11 for buffers (released once inside a function, through phi nodes). R11 every successful return of the link writer after bytes went into its buffer has a flush pending or arms the flush timer. R12 in every frame writer that applies the atom mapping to a name the atom-cache lookup uses the mapped name, and (R12t) the text written is converted from the mapped name. R13 wherever a pool item's link is (re)assigned its writer is renewed for that very link in the same straight-line code.",
+		Explanation: "Decides structural clauses of remote delivery integrity on the raw frame protocol: R1 for every proto* message constant the writer's field map (offset, width, role pid/alias/ref word) agrees with the reader arm's field map, the header size allocated by the writer equals the offset at which the reader starts decoding the payload, and every identifier word the writer stores is read back; R5 an identifier the reader rebuilds with the peer's name/creation is one the writer owns (not guarded against the peer's creation) and vice versa, so 'from' is the true sender and 'to' the addressee; R2 the only write to a pooled link is in send, after the peer's max-message-size test which comes after compression; every frame builder ends in send; R3 no read of a receive buffer after it was released, no double release (ownership typestate over SSA); R4 each important-delivery acknowledgement carries the reference read from that frame, the error of that Route* call, and is addressed to the frame's sender; R6 the frame cutter uses one length for the frame and the tail. Added while probing: R1h every frame writer writes the complete header into the buffer it stamps (magic, version, its own length at [2:6], selector at 6, type at 7); R1e all integer accesses in net/proto and net/handshake are big-endian; R7 the compression envelope (type id, length prefix, offsets) agrees between send, the receive worker and each Compress/Decompress pair; R8 the stream reader appends at the buffer's logical end (offset sampled before the growth helper) and the new length is offset + n; R9 no frame is stranded in a receive queue (producer pushes before trying the lock; the worker re-checks after Unlock). R10 lock pairing — in every function that touches the link writer's (flusher) lock a forward data flow over (held read/write, unlock deferred) shows: no return while the lock is held without a deferred unlock, no unlock (explicit or deferred) of a lock that is not held or of the other kind, no second lock (a leaked lock blocks every later send on that link for ever, an unlock of an unlocked mutex is a fatal error that takes the node down). R3x pooled objects across calls — when a function may release a pooled buffer it received as a parameter (directly, through a callee resolved statically or by the VTA call graph, or deferred), no caller releases or re-dispatches the same object on a path compatible with the callee's releasing path; paths are correlated through the nil-ness of the callee's error result (a double release hands one object to two later users: frames of unrelated connections overwrite each other, a request is presented twice or answered with another request's reference). R3i = C02.D11 for buffers (released once inside a function, through phi nodes). R11 every successful return of the link writer after bytes went into its buffer has a flush pending or arms the flush timer. R12 in every frame writer that applies the atom mapping to a name the atom-cache lookup uses the mapped name, and (R12t) the text written is converted from the mapped name. R13 wherever a pool item's link is (re)assigned its writer is renewed for that very link in the same straight-line code. R14 every compact error code the response-error writer stores into the code byte has an arm in the reader's switch over that byte (an unknown code is dropped by the reader: the sender of an important message gets a timeout instead of the remote reason).",
 		NotDecided: []string{
 			"TCP segmentation / reassembly over every cut of the stream (only the append position and the cut at the declared length are decided)",
 			"compression round trip, payload equality (see C11 clauses)",
@@ -49,6 +49,7 @@ func runC12(p *load.Program, r *core.Report) {
 	}
 	c12MappedNameCached(p, r)
 	mappedNameText(p, r, "C12.R12t text-of-the-mapped-name", "C12.R12t", 5)
+	c12ErrorCodesAgree(p, r)
 	c12FlushArmed(p, r)
 	c12WriterGoesWithLink(p, r)
 	pooledIntra(p, r, "C12.R3i buffer-released-once", "C12.R3i", 12, "buffer", func(*ssa.Function) bool { return true })
